@@ -171,6 +171,8 @@ pub fn scenarios(tier: Tier) -> Vec<(Scenario, Option<usize>)> {
 }
 
 pub struct ScOut {
+    /// a few of the schedules actually run: (task id per step, outcome vector)
+    pub sample_traces: Vec<(Vec<usize>, String)>,
     pub findings: Vec<Finding>,
     pub stats: exec::ExploreStats,
     pub outcomes: std::collections::BTreeMap<String, u64>,
@@ -179,6 +181,7 @@ pub struct ScOut {
 pub fn explore_scenario(sc: &Scenario, bound: Option<usize>, cap: u64) -> Result<ScOut, String> {
     let mut findings: std::collections::BTreeMap<String, Finding> = Default::default();
     let mut outcomes: std::collections::BTreeMap<String, u64> = Default::default();
+    let mut sample_traces: Vec<(Vec<usize>, String)> = vec![];
     // the harness owns every choice: replaying the empty prefix twice must give the same trace
     let t1 = {
         let (tasks, _, _) = build(sc);
@@ -215,6 +218,9 @@ pub fn explore_scenario(sc: &Scenario, bound: Option<usize>, cap: u64) -> Result
                 Some(Outcome::Failed(b)) => format!("e{b:02x}"),
                 None => "-".into(),
             }).collect::<Vec<_>>());
+            if !outcomes.contains_key(&vec_key) && sample_traces.len() < 3 {
+                sample_traces.push((ex.trace.clone(), vec_key.clone()));
+            }
             *outcomes.entry(vec_key).or_insert(0) += 1;
             for (kind, d) in judge(sc, &ex.end, &outs, &recs) {
                 let key = format!("scenario={}/lock={}/store={}/kind={kind}", sc.name, sc.lock, sc.store);
@@ -222,7 +228,7 @@ pub fn explore_scenario(sc: &Scenario, bound: Option<usize>, cap: u64) -> Result
             }
         },
     )?;
-    Ok(ScOut { findings: findings.into_values().collect(), stats, outcomes })
+    Ok(ScOut { sample_traces, findings: findings.into_values().collect(), stats, outcomes })
 }
 
 pub fn run(ctx: &Ctx) -> Result<Run, String> {
@@ -268,7 +274,9 @@ pub fn run(ctx: &Ctx) -> Result<Run, String> {
         }
         per.push(json!({"scenario": sc.name, "lock": sc.lock, "store": sc.store, "uv_yields": sc.uv_yields, "preemption_bound": bound, "schedules": o.stats.schedules, "scheduling_points": o.stats.points, "max_enabled": o.stats.max_enabled, "max_preemptions": o.stats.max_preemptions_seen, "distinct_outcome_vectors": o.outcomes.len(), "capped": o.stats.capped}));
         if stats.samples.len() < 4 {
-            stats.samples.push(json!({"scenario": sc, "schedule": "all schedules within the bound, e.g. [] (no preemption)"}));
+            for (trace, outcome) in &o.sample_traces {
+                stats.samples.push(json!({"scenario": sc.name, "lock": sc.lock, "store": sc.store, "task_run_at_each_step": trace, "outcome_vector": outcome}));
+            }
         }
         stats.findings_from(o.findings);
     }
